@@ -2,6 +2,7 @@
 from __future__ import annotations
 
 import ast
+from ..cfg import decompose as decompose_
 from ..model import Repo, AnalysisError, norm, enclosing_def
 from ..report import Check
 from ..linnorm import lin, NotLinear, compare_upper_bound
@@ -285,18 +286,21 @@ def run(repo: Repo, chk: Check):
     if own_blocked:
         for c in ast.walk(outer):
             if isinstance(c, ast.Call) and isinstance(c.func, ast.Attribute) and c.func.attr == "add" and isinstance(c.func.value, ast.Name) and c.func.value.id in own_blocked:
-                # all enclosing ifs inside the symbol loop must be statically true
+                # the add is at most as conditional as the allocation itself: every enclosing test inside the symbol loop is statically
+                # true or also encloses the store that enters the register into the map
+                alloc_guards = set()
+                for ms in map_stores:
+                    for t_, p_ in guard_atoms(cfg, ms.id):
+                        alloc_guards.add((norm(t_), p_))
                 p = c
                 ok_here = True
                 while p is not None and p is not outer:
                     par = getattr(p, "parent", None)
-                    if isinstance(par, ast.If) and p in par.body:
+                    if isinstance(par, ast.If) and (p in par.body or p in par.orelse):
+                        pol_ = p in par.body
                         tv = _static_truth(par.test)
-                        guard_is_continue = False
-                        if tv is not True:
+                        if tv is not pol_ and not all((norm(t_), q_) in alloc_guards for t_, q_ in decompose_(par.test, pol_)):
                             ok_here = False
-                    elif isinstance(par, ast.If) and p in par.orelse:
-                        ok_here = False
                     p = par
                 # and it sits on the same path as the mapping store (after it, no continue in between)
                 ok_add = ok_add or ok_here
